@@ -35,6 +35,7 @@ brute-force dominance (comparisons only, exact); stratum membership of the sorte
 import itertools, math, os
 from fractions import Fraction
 import numpy as np
+from mc.explore import recycle
 import pandas as pd
 
 ID = "C20"
@@ -796,7 +797,7 @@ def check_snorm(ctx, x, cst, method, srt, sample=False, spec=None, layouts=(), s
         case["sfx"] = sfx
     n = len(x)
     nt = n >= 2
-    arr = np.array(x, dtype=np.float64)
+    arr = recycle("sn", np.array(x, dtype=np.float64))
     if any(math.isnan(v) for v in x):
         try:
             sutils.standard_normal(arr, cst, srt, method)
@@ -1020,7 +1021,7 @@ def check_pareto(ctx, data, variants=True, sample=False, spec=None, layouts=(), 
     res = {}
     for orient in (1, -1):
         try:
-            out = sutils.pareto_front(data, orient)
+            out = sutils.pareto_front(recycle("pareto", data), orient)
         except Exception as e:
             ctx.case(n >= 2)
             ctx.violation("pareto_front:raised:%s%s" % (type(e).__name__, sfx), case(orient), "raised %r" % (e,))
@@ -1278,7 +1279,7 @@ def check_bs(ctx, col, box, whisk, sample=False, spec=None, layouts=(), sfx=""):
         case["sfx"] = sfx
     nt = nontrivial_col(col)
     try:
-        st = boxplot_stats(np.array(col, dtype=np.float64), box, whisk)
+        st = boxplot_stats(recycle("col", np.array(col, dtype=np.float64)), box, whisk)
     except Exception as e:
         ctx.case(nt)
         ctx.violation("boxplot_stats:raised:%s:%s%s" % (type(e).__name__, col_class(col), sfx), case, "raised %r" % (e,))
